@@ -110,6 +110,10 @@ def _worker_chunk(args):
                 break
             elif res.get('violation') is not None:
                 agg['foreign_abort'] += 1
+                if os.environ.get('VERIF_DEBUG_FOREIGN'):
+                    print('FOREIGN', json.dumps(res['violation']),
+                          json.dumps({k: sc[k] for k in ('ops', 'scripts')}),
+                          flush=True)
         if found:
             break
         if i % 64 == 63:
